@@ -311,8 +311,12 @@ class CallMixin:
                     from .interp_ops import zint
                     from theory.externals import ite
                     base, idx = o.base, zint(o.idx)
-                    interp.ctx.notes.append("A4: x.at[i].set(v)[j] = v if j == i else x[j]")
+                    interp.ctx.notes.append("A4: x.at[i].set(v)[j] = v if j == i else x[j]  (negative i counts from the "
+                                            "end; an out-of-range update is dropped)")
                     if isinstance(base, Stacked):
+                        import z3 as _z3
+                        nn = _z3.IntVal(base.n) if isinstance(base.n, int) else base.n
+                        idx = _z3.If(idx < 0, idx + nn, idx)
                         return Stacked(base.n, lambda j: ite(interp, j == idx, x, base.at(j)), tag="at-set")
                     raise Unsupported("at[].set on non-batched value")
                 return NativeFn("at.set", at_set)
